@@ -493,6 +493,19 @@ func DischargeAll(obs []*Obligation, timeout int) {
 		}(o)
 	}
 	wg.Wait()
+	// a timeout may be the machine's (other jobs competing for the cores), not the obligation's: the first
+	// few obligations that timed out are asked again, one at a time and with four times the budget, before
+	// they are reported.  An answer `sat` is never retried.
+	retried := 0
+	for _, o := range obs {
+		if retried >= 12 {
+			break
+		}
+		if o.Status == "timeout" && o.Kind != "vacuity" && o.Kind != "feasibility" {
+			retried++
+			o.Discharge(4 * timeout)
+		}
+	}
 }
 
 // ---------- inductive lemmas: checked by Lean ----------
